@@ -17,6 +17,18 @@ CLAIMS = {
          "Selected leaf → fresh simulate, weight 0, old value discarded; unselected → rescoring with no sampler reachable; handler forwards the remainder selection; Scan/Vmap/Cond aggregation; Selection.match remainder threading."),
  "C16": ("case enumeration of each match method's symbolic return term against the selection-algebra table; path/pairing rules on filter and merge",
          "All 8 selection node classes + Selection wrapper + sel() dispatch + operators are decided for every truth assignment of their atomic conditions (a proof of the Boolean-algebra clause by structural induction, relative to the table); filter/merge consumers are checked for partition pairing, precedence and leaf-decision agreement with regenerate."),
+ "C05": ("symbolic term comparison of every trace-construction site; telescoping identity by case splitting; whole-trace select / single-index rules; ownership of trace fields",
+         "Induction step of the coherence invariant for every trace-producing operation (all GFI methods of all implementors, the three MCMC kernels' accept/select, resampling by one index vector), the recorded-arguments format shared by producers and consumers, and no writer of trace fields outside constructors."),
+ "C09": ("symbolic decomposition of each kernel's return term into proposal / accept test / select, polynomial comparison of proposal means, scales, evaluation points and signed log-ratio constituents",
+         "mh: log ratio = regenerate weight; mala: drift step²/2·∇, scale step, backward density at the old value with the gradient at the proposed point, ratio = model + backward − forward; hmc: leapfrog half/full/half steps with the gradient re-evaluated, energy difference, proposed trace = update(final position); rejected move returns the input trace; Cond.regenerate weight re-based on the old visible score (mixture-indicator move); per-leaf noise/momentum shape."),
+ "C10": ("symbolic summaries of the per-particle closures under modular_vmap; polynomial comparison of log-weight forms; role checks of the rejuvenation_smc pipeline",
+         "init/change/extend weight forms (generate weight, plus proposal score for custom proposals, accumulated on the old weight), rejuvenate leaves weights/estimate/diagnostics untouched, log_marginal_likelihood and ESS formulas, ESS-triggered resampling inside cond with identity else-branch, extend fed by the particles' own retvals, scan carry = post-move particles."),
+ "C12": ("single-index dataflow rule over the whole-trace tree_map; algebra of resample; symbolic invariance of log_marginal_likelihood with one library axiom",
+         "One index vector (categorical with sample_shape=(N,) or systematic) subscripts axis 0 of every leaf; weights reset to zeros(N), estimate' = estimate + logsumexp(w) − log N, diagnostic weights from the input weights, log_marginal_likelihood() symbolically unchanged (axiom logsumexp(zeros(N)) = log N); systematic positions (arange(N)+u)/N against cumsum of normalised weights with one scalar u."),
+ "C17": ("symbolic value of the elbo closure and of the optimisation scan body compared as polynomials with the contract forms",
+         "elbo = assess(merge(constraint, q choices)[0], *target_args)[0] + q score from one simulate; update = params + lr·grad_estimate(params) carried and emitted; final_params = final carry; families' covariance constructions and estimator selection; merge precedence."),
+ "C18": ("symbolic summary of run_chain: scan body roles, one retained-index term shared by traces and accepts, provenance of accepts from the same state-wrapped run",
+         "Post-kernel trace carried and emitted, indices arange(burn_in, n_steps, thinning) applied to every trace leaf and to the accepts collected by the same run, acceptance_rate/n_steps from the retained accepts, multi-chain path = modular_vmap over replicated initial traces with the same n_steps/burn_in/thinning and n_chains=const(1)."),
 }
 checks, na = [], []
 for p in props:
